@@ -159,6 +159,8 @@ def decode (data : List Nat) (twoS : Int) : Out (List Nat) :=
     else do
       let (sigma, omega) ← euclideanAlgorithm (newMonomial n 1) synd n
       let locs ← findErrorLocations sigma
+      if locs.length ≠ degree sigma then
+        throwErr (α := Unit) "reedsolomon: error locator degree does not match number of roots"
       let mags ← findErrorMagnitudes omega locs
       let mut d := data.toArray
       for i in [0:locs.length] do
@@ -168,7 +170,10 @@ def decode (data : List Nat) (twoS : Int) : Out (List Nat) :=
         else
           let pos := d.size - 1 - l
           d := d.modify pos (fun v => add v (mags[i]?.getD 0))
-      pure d.toList
+      -- verify the result: a corrected word must be a codeword
+      let res := d.toList
+      if (List.range n).all (fun i => eval res (expT (i % 255)) == 0) then pure res
+      else throwErr "reedsolomon: too many errors"
 where
   throwErr {α} (m : String) : Out α := .err m
 
